@@ -603,6 +603,53 @@ long long kind_max<char>() { return 255; }
 template <>
 long long kind_max<wchar_t>() { return 1114111; }
 
+}
+
+#include "c12_grammar.cpp"
+
+namespace
+{
+// ---------------------------------------------------------------- positions as values
+// `OFF@L:C` / `OFF@-`
+template <typename Ch>
+bool parse_position(std::string const &s, std::unique_ptr<fcppt::parse::position<Ch>> &out)
+{
+  using position = fcppt::parse::position<Ch>;
+  using pos_type = typename position::pos_type;
+  std::size_t const at = s.find('@');
+  if (at == std::string::npos)
+    return false;
+  unsigned long long off = 0, l = 0, c = 0;
+  if (!parse_nat(s.substr(0, at), off))
+    return false;
+  std::string const rest{s.substr(at + 1)};
+  if (rest == "-")
+  {
+    out = std::make_unique<position>(
+        pos_type(std::streamoff(static_cast<long long>(off))), typename position::optional_location{});
+    return true;
+  }
+  std::size_t const colon = rest.find(':');
+  if (colon == std::string::npos || !parse_nat(rest.substr(0, colon), l) || !parse_nat(rest.substr(colon + 1), c))
+    return false;
+  out = std::make_unique<position>(
+      pos_type(std::streamoff(static_cast<long long>(off))),
+      fcppt::optional::make(fcppt::parse::location{fcppt::parse::line{l}, fcppt::parse::column{c}}));
+  return true;
+}
+
+template <typename Ch>
+std::string narrow_ascii(std::basic_string<Ch> const &s)
+{
+  std::string r;
+  for (Ch const c : s)
+  {
+    unsigned long long const v = unsigned_of<Ch>::code(c);
+    r += v >= 32 && v < 127 ? static_cast<char>(v) : '?';
+  }
+  return r;
+}
+
 // ---------------------------------------------------------------- per character type
 template <typename Ch>
 struct inst
@@ -707,6 +754,86 @@ struct inst
       std::string const f{k.state_str()};
       return "r=" + r + f + " " + obs_str('p', k.step(op{1, 0}));
     }
+    if ((t[0] == "gp" && t.size() == 7) || (t[0] == "gx" && t.size() == 6) || (t[0] == "ge" && t.size() == 8))
+    {
+      // the last two tokens: skipper, grammar
+      gast sk{}, gr{};
+      if (!parse_gtext(t[t.size() - 2], true, kind_max<Ch>(), sk) ||
+          !parse_gtext(t[t.size() - 1], false, kind_max<Ch>(), gr) || !well_formed(sk) || !well_formed(gr))
+        return "bad-op";
+      if (t[0] == "gp")
+      {
+        if (!parse_list(t[2], kind_max<Ch>(), text) || !parse_fa(t[3], fa) || !parse_ops(t[4], ops))
+          return "bad-op";
+        world<Ch> const w{gr, sk};
+        return grun_str<Ch>(run_traced<Ch>(w, to_text<Ch>(text), fa, ops));
+      }
+      if (t[0] == "gx")
+      {
+        unsigned long long l = 0;
+        if (!parse_nat(t[2], l) || l > 8 || !parse_fa(t[3], fa))
+          return "bad-op";
+        world<Ch> const w{gr, sk};
+        std::basic_string<Ch> s(static_cast<std::size_t>(l), Ch(97));
+        std::uint64_t h = vh::fnv_init;
+        unsigned long long const total = 1ULL << (2U * l);
+        for (unsigned long long code = 0; code < total; ++code)
+        {
+          for (std::size_t q = 0; q < l; ++q)
+            s[q] = static_cast<Ch>(alphabet[(code >> (2U * (l - 1 - q))) & 3U]);
+          // the parse starts after k reads, k = 0 .. l+1 (l+1: one failed read at the end of input)
+          ops.clear();
+          for (unsigned long long k = 0; k <= l + 1; ++k)
+          {
+            h = mix_grun(h, run_traced<Ch>(w, s, fa, ops));
+            ops.push_back(op{0, 0});
+          }
+        }
+        return "D " + vh::hex64(h);
+      }
+      // ge K E TEXT FA NRAW SK GR
+      unsigned long long nraw = 0;
+      if (t[2].size() != 1 || (t[2][0] != 'p' && t[2][0] != 'e' && t[2][0] != 'g') ||
+          !parse_list(t[3], kind_max<Ch>(), text) || !parse_fa(t[4], fa) || !parse_nat(t[5], nraw) || nraw > 1000)
+        return "bad-op";
+      if (t[2][0] == 'e' && t[6] != "eps")
+        return "bad-op";
+      world<Ch> const w{gr, sk};
+      return run_entry<Ch>(w, t[2][0], to_text<Ch>(text), fa, nraw);
+    }
+    if (t[0] == "poseq" && t.size() == 4)
+    {
+      std::unique_ptr<fcppt::parse::position<Ch>> a, b;
+      if (!parse_position<Ch>(t[2], a) || !parse_position<Ch>(t[3], b))
+        return "bad-op";
+      std::string r{"eq="};
+      r += (*a == *b) ? '1' : '0';
+      r += (*b == *a) ? '1' : '0';
+      r += " leq=";
+      if (a->location().has_value() && b->location().has_value())
+        r += (a->location().get_unsafe() == b->location().get_unsafe()) ? '1' : '0';
+      else
+        r += '-';
+      // the same object on both sides
+      r += " self=";
+      r += (*a == *a) ? '1' : '0';
+      return r;
+    }
+    if (t[0] == "posout" && t.size() == 3)
+    {
+      std::unique_ptr<fcppt::parse::position<Ch>> a;
+      if (!parse_position<Ch>(t[2], a))
+        return "bad-op";
+      std::basic_ostringstream<Ch> o1, o2;
+      o1 << *a;
+      std::string r{"out=" + narrow_ascii<Ch>(o1.str())};
+      if (a->location().has_value())
+      {
+        o2 << a->location().get_unsafe();
+        r += " loc=" + narrow_ascii<Ch>(o2.str());
+      }
+      return r;
+    }
     return "bad-op";
   }
 };
@@ -765,6 +892,33 @@ std::string stateful(inst<Ch> &in, std::vector<std::string> const &t)
             pos_type(std::streamoff(off)),
             fcppt::optional::make(fcppt::parse::location{fcppt::parse::line{l}, fcppt::parse::column{c}})}));
   }
+  if (t[0] == "gpar" && t.size() == 3)
+  {
+    gast sk{}, gr{};
+    if (!parse_gtext(t[1], true, kind_max<Ch>(), sk) || !parse_gtext(t[2], false, kind_max<Ch>(), gr) ||
+        !well_formed(sk) || !well_formed(gr))
+      return "bad-op";
+    world<Ch> const w{gr, sk};
+    trace_stream<Ch> ts{k};
+    gres res{};
+    try
+    {
+      res = to_gres<Ch>(fcppt::parse::phrase_parse(
+          w.start(), static_cast<fcppt::parse::basic_stream<Ch> &>(ts), w.skipper()));
+    }
+    catch (fcppt::parse::detail::exception<Ch> const &)
+    {
+      res = gres{4, {}};
+    }
+    catch (...)
+    {
+      res = gres{5, {}};
+    }
+    std::string r{"r=" + gres_str(res)};
+    for (ev const &e : ts.log)
+      r += " " + ev_str(e);
+    return r + " |" + k.state_str();
+  }
   if (t.size() == 2)
   {
     std::vector<long long> arg;
@@ -782,7 +936,7 @@ std::string stateful(inst<Ch> &in, std::vector<std::string> const &t)
 bool is_stateful_name(std::string const &s)
 {
   return s == "get" || s == "pos" || s == "set" || s == "setraw" || s == "char" || s == "lit" || s == "cset" ||
-         s == "slit" || s == "scset";
+         s == "slit" || s == "scset" || s == "gpar";
 }
 
 std::string handle(std::vector<std::string> const &t)
@@ -818,7 +972,8 @@ std::string handle(std::vector<std::string> const &t)
     }
     return "bad-op";
   }
-  if (t[0] == "hist" || t[0] == "walk" || t[0] == "exh" || t[0] == "seqs" || t[0] == "perr")
+  if (t[0] == "hist" || t[0] == "walk" || t[0] == "exh" || t[0] == "seqs" || t[0] == "perr" || t[0] == "gp" ||
+      t[0] == "gx" || t[0] == "ge" || t[0] == "poseq" || t[0] == "posout")
   {
     if (t.size() < 2)
       return "bad-op";
@@ -842,6 +997,8 @@ std::string handle(std::vector<std::string> const &t)
       }
       if (t[0] == "setraw")
         return "no-stream";
+      if (t[0] == "gpar")
+        return t.size() == 3 ? "no-stream" : "bad-op";
       return t.size() == 2 ? "no-stream" : "bad-op";
     }
     return g.kind == 'c' ? stateful(g.c, t) : stateful(g.w, t);
